@@ -460,3 +460,29 @@ def check_table(ctx, rep):
     rep.floor("units named <SI prefix><unit> compared with their base unit", npre, 70)
     rep.floor("units named a_per_b compared with their parts", nper, 60)
     return len(table)
+
+
+def check_unit_identity(ctx, rep):
+    """Number + and - decide 'same unit' with Unit::eq: two database units are the same only if every identifying field is
+    equal, so eq must read all fields of Unit (quantity, ids, dimensions, scale, offset); an eq that ignores `ids` makes every
+    pair of currencies, or mL and cm3, the same unit"""
+    from rules import eqrule
+
+    prog = ctx.prog
+    tab = eqrule.impl_table(prog)
+    adt = U + "unit::Unit"
+    ms = tab.get(adt, {})
+    fields = set(eqrule.field_types(prog, adt))
+    if "eq" not in ms or not fields:
+        rep.gap("Unit::eq", "-", "impl or fields not found")
+        return 0
+    body, derived = ms["eq"]
+    if derived:
+        rep.ok("R-DIM", "unit-identity:eq-reads-all-fields", "-", "PartialEq for Unit is derived over %s" % sorted(fields))
+        return 1
+    read = eqrule.all_fields(body, prog)
+    if fields <= read:
+        rep.ok("R-DIM", "unit-identity:eq-reads-all-fields", body.where(), "Unit::eq compares %s" % sorted(read))
+    else:
+        rep.bad("R-DIM", "R-DIM:unit-identity:eq-reads-all-fields", body.where(), "Unit::eq ignores %s: distinct database units compare equal, so Number + and - accept operands of different units" % sorted(fields - read))
+    return 1
